@@ -135,6 +135,12 @@ def run(ctx):
         if fam not in ("fail_siblings", "straddle") and rng.random() < 0.25:
             g = inject_failures(rng, g)
             dist["failing"] += 1
+        if rng.random() < 0.15:
+            # a plain (non-generator) function that RETURNS a generator object: its value is the list of what it yields, under either runner
+            cand = [n for n in g["nodes"] if n["kind"] == "func" and n["fn"][0] in ("sym", "const") and len(n.get("outputs", [])) == 1]
+            if cand:
+                rng.choice(cand)["fn"] = ["genconst", [rng.randint(0, 3), rng.randint(0, 3)]]
+                dist["generator_returning"] = dist.get("generator_returning", 0) + 1
         try:
             inputs = gen.make_inputs(rng, g)
         except Exception:  # noqa: BLE001  (generator produced a graph the constructor rejects)
